@@ -90,6 +90,274 @@ static void getters (PIniFile *ini, const char *sec, const char *key) {
 	p_free (raw);
 }
 
+
+/* ---- arguments that may be NULL: `NULL`, `-` (empty string) or hex; a hex string is cut at its first NUL by C itself ---- */
+static char *arg_str (const char *tok, int *ok) {
+	*ok = 1;
+	if (strcmp (tok, "NULL") == 0) return NULL;
+	size_t n = strcmp (tok, "-") == 0 ? 0 : strlen (tok);
+	if (n % 2) { *ok = 0; return NULL; }
+	char *r = malloc (n / 2 + 1);
+	for (size_t i = 0; i < n; i += 2) {
+		int a = hexval (tok[i]), b = hexval (tok[i + 1]);
+		if (a < 0 || b < 0) { *ok = 0; free (r); return NULL; }
+		r[i / 2] = (char) (a * 16 + b);
+	}
+	r[n / 2] = '\0';
+	return r;
+}
+
+static void put_str (const char *s) { put_hex (s); }
+
+static int write_file (void) {
+	FILE *f = fopen (path, "wb");
+	if (f == NULL || (data_len > 0 && fwrite (data, 1, data_len, f) != data_len) || fclose (f) != 0) return -1;
+	return 0;
+}
+
+static size_t list_len_free (PList *l) {
+	size_t n = 0;
+	for (PList *c = l; c != NULL; c = c->next) { ++n; p_free (c->data); }
+	p_list_free (l);
+	return n;
+}
+
+/* number of entries / of distinct entries of a list of strings; frees it */
+static void put_counts_free (PList *l) {
+	size_t n = 0, d = 0;
+	for (PList *c = l; c != NULL; c = c->next) {
+		int seen = 0;
+		for (PList *b = l; b != c && !seen; b = b->next) seen = strcmp ((const char *) b->data, (const char *) c->data) == 0;
+		++n; d += !seen;
+	}
+	printf ("%zu/%zu", n, d);
+	for (PList *c = l; c != NULL; c = c->next) p_free (c->data);
+	p_list_free (l);
+}
+
+/* all getters with caller-chosen arguments (any of ini / sec / key / sdef may be NULL) */
+static void getters_with (PIniFile *ini, const char *sec, const char *key, const char *sdef, int idef, int bdef, double ddef) {
+	char *s = p_ini_file_parameter_string (ini, sec, key, sdef);
+	fputs ("s=", stdout); put_str (s);
+	char *raw = p_ini_file_parameter_string (ini, sec, key, NULL);
+	int ovf = 0;
+	if (raw != NULL) {
+		errno = 0;
+		long v = strtol (raw, NULL, 10);
+		if (errno == ERANGE || v > INT_MAX || v < INT_MIN) ovf = 1;
+	}
+	int i = p_ini_file_parameter_int (ini, sec, key, idef);
+	if (ovf) fputs (" i=ovf", stdout); else printf (" i=%d", i);
+	pboolean b = p_ini_file_parameter_boolean (ini, sec, key, bdef ? TRUE : FALSE);
+	int bool_word = raw != NULL && (!strcmp (raw, "true") || !strcmp (raw, "TRUE") || !strcmp (raw, "false") || !strcmp (raw, "FALSE"));
+	if (ovf && !bool_word) fputs (" b=ovf", stdout); else printf (" b=%d", b ? 1 : 0);
+	PList *l = p_ini_file_parameter_list (ini, sec, key);
+	fputs (" l=", stdout);
+	if (l == NULL) putchar ('-');
+	for (PList *c = l; c != NULL; c = c->next) {
+		if (c != l) putchar (',');
+		put_hex ((const char *) c->data);
+		p_free (c->data);
+	}
+	p_list_free (l);
+	double d = p_ini_file_parameter_double (ini, sec, key, ddef);
+	uint64_t bits;
+	memcpy (&bits, &d, sizeof bits);
+	/* a NaN is printed as `nan` (the model's Float does not keep NaN payloads) */
+	if (d != d) fputs (" d=nan", stdout); else printf (" d=%016llx", (unsigned long long) bits);
+	printf (" e=%d", p_ini_file_is_key_exists (ini, sec, key) ? 1 : 0);
+	fputs (" n=", stdout); put_counts_free (p_ini_file_keys (ini, sec));
+	p_free (s);
+	p_free (raw);
+}
+
+/* get SEC KEY SDEF IDEF BDEF DDEFBITS: the current file parsed afresh, every getter with these arguments */
+static void do_get (char **t) {
+	int ok1, ok2, ok3;
+	char *sec = arg_str (t[1], &ok1), *key = arg_str (t[2], &ok2), *sdef = arg_str (t[3], &ok3);
+	char *e1, *e2, *e3;
+	long idef = strtol (t[4], &e1, 10);
+	long bdef = strtol (t[5], &e2, 10);
+	unsigned long long dbits = strtoull (t[6], &e3, 16);
+	if (!ok1 || !ok2 || !ok3 || *e1 || *e2 || *e3 || strlen (t[6]) != 16 || (bdef != 0 && bdef != 1) || idef > INT_MAX || idef < INT_MIN) {
+		puts ("bad-op");
+	} else if (write_file () != 0) {
+		puts ("io-error");
+	} else {
+		PIniFile *ini = p_ini_file_new (path);
+		if (ini == NULL || !p_ini_file_parse (ini, NULL)) puts ("parse-failed");
+		else {
+			double ddef;
+			uint64_t bb = dbits;
+			memcpy (&ddef, &bb, sizeof ddef);
+			getters_with (ini, sec, key, sdef, (int) idef, (int) bdef, ddef);
+			putchar ('\n');
+		}
+		p_ini_file_free (ini);
+	}
+	free (sec); free (key); free (sdef);
+}
+
+static const char *err_name (PError *e) {
+	static char buf[32];
+	if (e == NULL) return "none";
+	int c = p_error_get_code (e);
+	if (c == (int) P_ERROR_IO_INVALID_ARGUMENT) return "invalid";
+	if (c == (int) P_ERROR_IO_NOT_EXISTS) return "notexists";
+	snprintf (buf, sizeof buf, "other%d", c);
+	return buf;
+}
+
+static size_t total_keys (PIniFile *ini, size_t *nsec) {
+	size_t n = 0;
+	PList *secs = p_ini_file_sections (ini);
+	*nsec = 0;
+	for (PList *s = secs; s != NULL; s = s->next) {
+		++*nsec;
+		n += list_len_free (p_ini_file_keys (ini, (const char *) s->data));
+		p_free (s->data);
+	}
+	p_list_free (secs);
+	return n;
+}
+
+/* life SEC KEY: the life cycle of the object around the current file
+ *   U  unparsed object, N  NULL object, P  after the first parse, Q  after the second parse (file rewritten
+ *   with different content in between), M  object for a path that does not exist (two parse attempts) */
+static void do_life (char **t) {
+	int ok1, ok2;
+	char *sec = arg_str (t[1], &ok1), *key = arg_str (t[2], &ok2);
+	if (!ok1 || !ok2) { puts ("bad-op"); free (sec); free (key); return; }
+	if (write_file () != 0) { puts ("io-error"); free (sec); free (key); return; }
+	size_t ns, nk;
+	double dd = -0.0;
+	printf ("new0=%d", p_ini_file_new (NULL) == NULL ? 1 : 0);
+	PIniFile *ini = p_ini_file_new (path);
+	if (ini == NULL) { puts (" new-failed"); free (sec); free (key); return; }
+	printf (" U p=%d", p_ini_file_is_parsed (ini) ? 1 : 0);
+	nk = total_keys (ini, &ns);
+	printf (" S=%zu K=%zu ", ns, nk);
+	getters_with (ini, sec, key, "u", 0, 0, dd);
+	fputs (" N p=", stdout);
+	printf ("%d", p_ini_file_is_parsed (NULL) ? 1 : 0);
+	nk = total_keys (NULL, &ns);
+	printf (" S=%zu K=%zu ", ns, nk);
+	getters_with (NULL, sec, key, NULL, INT_MIN, 1, 1.0 / 3.0);
+	PError *err = NULL;
+	pboolean r = p_ini_file_parse (NULL, &err);
+	printf (" r=%d err=%s", r ? 1 : 0, err_name (err));
+	p_error_free (err);
+	p_ini_file_free (NULL);
+	err = NULL;
+	r = p_ini_file_parse (ini, &err);
+	printf (" P r=%d err=%s p=%d", r ? 1 : 0, err_name (err), p_ini_file_is_parsed (ini) ? 1 : 0);
+	p_error_free (err);
+	nk = total_keys (ini, &ns);
+	printf (" S=%zu K=%zu ", ns, nk);
+	getters_with (ini, sec, key, "", INT_MAX, 0, dd);
+	/* the file changes on disk: an object that is already parsed keeps what it read */
+	FILE *f = fopen (path, "wb");
+	if (f != NULL) { fputs ("[zz]\nzk=zv\n[zy]\nzk=1\n", f); fclose (f); }
+	err = NULL;
+	r = p_ini_file_parse (ini, &err);
+	printf (" Q r=%d err=%s p=%d", r ? 1 : 0, err_name (err), p_ini_file_is_parsed (ini) ? 1 : 0);
+	p_error_free (err);
+	nk = total_keys (ini, &ns);
+	printf (" S=%zu K=%zu ", ns, nk);
+	getters_with (ini, sec, key, "", INT_MAX, 0, dd);
+	p_ini_file_free (ini);
+	/* a path that does not exist */
+	char missing[96];
+	snprintf (missing, sizeof missing, "%s/missing.ini", dir_tmpl);
+	ini = p_ini_file_new (missing);
+	if (ini == NULL) { puts (" new-failed"); free (sec); free (key); return; }
+	for (int k = 0; k < 2; ++k) {
+		err = NULL;
+		r = p_ini_file_parse (ini, &err);
+		printf (" M r=%d err=%s p=%d", r ? 1 : 0, err_name (err), p_ini_file_is_parsed (ini) ? 1 : 0);
+		p_error_free (err);
+	}
+	nk = total_keys (ini, &ns);
+	printf (" S=%zu K=%zu ", ns, nk);
+	getters_with (ini, sec, key, "m", -1, 1, 2.5);
+	p_ini_file_free (ini);
+	putchar ('\n');
+	free (sec); free (key);
+}
+
+/* ---- pstring.c entry points the INI code relies on ---- */
+static void do_chomp (const char *tok) {
+	int ok; char *s = arg_str (tok, &ok);
+	if (!ok) { puts ("bad-op"); return; }
+	char *r = p_strchomp (s);
+	put_str (r); putchar ('\n');
+	p_free (r); free (s);
+}
+
+static void do_strdup (const char *tok) {
+	int ok; char *s = arg_str (tok, &ok);
+	if (!ok) { puts ("bad-op"); return; }
+	char *r = p_strdup (s);
+	put_str (r);
+	printf (" distinct=%d\n", (r != NULL && r != s) || (r == NULL && s == NULL) ? 1 : 0);
+	p_free (r); free (s);
+}
+
+static void do_strtod (const char *tok) {
+	int ok; char *s = arg_str (tok, &ok);
+	if (!ok) { puts ("bad-op"); return; }
+	double d = p_strtod (s);
+	uint64_t bits;
+	memcpy (&bits, &d, sizeof bits);
+	printf ("d=%016llx\n", (unsigned long long) bits);
+	free (s);
+}
+
+/* strtok STR D1 [D2 ...]: p_strtok (str, D1, &buf), then p_strtok (NULL, D2, &buf) ... (the last delimiter set repeats)
+ * until NULL; a NULL delimiter set makes the call return its first argument */
+static void do_strtok (char **t, int n) {
+	int ok; char *s = arg_str (t[1], &ok);
+	if (!ok || s == NULL) { puts ("bad-op"); free (s); return; }
+	char *delims[16]; int nd = 0;
+	for (int i = 2; i < n; ++i) {
+		int okd; delims[nd] = arg_str (t[i], &okd);
+		if (!okd) ok = 0;
+		++nd;
+	}
+	if (!ok) puts ("bad-op");
+	else {
+		char *buf = NULL, *cur = s;
+		fputs ("T", stdout);
+		for (int call = 0; call < 4096; ++call) {
+			const char *d = delims[call < nd ? call : nd - 1];
+			char *tok = p_strtok (cur, d, &buf);
+			if (d == NULL) {
+				/* returns its first argument untouched */
+				printf (" ret=%s", tok == cur ? (cur == NULL ? "NULL" : "str") : "other");
+				if (call >= nd - 1) break;
+				continue;
+			}
+			cur = NULL;
+			if (tok == NULL) break;
+			putchar (' '); put_str (tok);
+		}
+		putchar ('\n');
+	}
+	for (int i = 0; i < nd; ++i) free (delims[i]);
+	free (s);
+}
+
+/* strtokb STR DELIM: a NULL context pointer makes p_strtok return its first argument */
+static void do_strtokb (char **t) {
+	int ok1, ok2; char *s = arg_str (t[1], &ok1), *d = arg_str (t[2], &ok2);
+	if (!ok1 || !ok2) puts ("bad-op");
+	else {
+		char *r = p_strtok (s, d, NULL);
+		printf ("ret=%s\n", r == s ? (s == NULL ? "NULL" : "str") : "other");
+	}
+	free (s); free (d);
+}
+
 static void do_parse (void) {
 	FILE *f = fopen (path, "wb");
 	if (f == NULL || (data_len > 0 && fwrite (data, 1, data_len, f) != data_len) || fclose (f) != 0) {
@@ -148,9 +416,9 @@ int main (void) {
 	if (mkdtemp (dir_tmpl) == NULL) { perror ("mkdtemp"); return 3; }
 	snprintf (path, sizeof path, "%s/f.ini", dir_tmpl);
 	while (fgets (line, sizeof line, stdin)) {
-		char *toks[16];
+		char *toks[18];
 		int n = 0;
-		for (char *t = strtok (line, " \r\n"); t != NULL && n < 16; t = strtok (NULL, " \r\n")) toks[n++] = t;
+		for (char *t = strtok (line, " \r\n"); t != NULL && n < 18; t = strtok (NULL, " \r\n")) toks[n++] = t;
 		if (n == 0) continue;
 		const char *op = toks[0];
 		int pieces = !strcmp (op, "raw") ? 2 : !strcmp (op, "bom") ? 3 : !strcmp (op, "blk") ? 4 : !strcmp (op, "cmt") ? 6 :
@@ -162,6 +430,13 @@ int main (void) {
 		else if (!strcmp (op, "reset") && n == 1) { data_len = 0; puts ("ok"); }
 		else if (!strcmp (op, "wfcheck") && n == 1) puts ("wf");
 		else if ((!strcmp (op, "parse") || !strcmp (op, "gparse")) && n == 1) do_parse ();
+		else if ((!strcmp (op, "get") || !strcmp (op, "gget")) && n == 7) do_get (toks);
+		else if (!strcmp (op, "life") && n == 3) do_life (toks);
+		else if (!strcmp (op, "chomp") && n == 2) do_chomp (toks[1]);
+		else if (!strcmp (op, "strdup") && n == 2) do_strdup (toks[1]);
+		else if (!strcmp (op, "strtod") && n == 2) do_strtod (toks[1]);
+		else if (!strcmp (op, "strtok") && n >= 3) do_strtok (toks, n);
+		else if (!strcmp (op, "strtokb") && n == 3) do_strtokb (toks);
 		else puts ("bad-op");
 		fflush (stdout);
 	}
